@@ -66,6 +66,10 @@ THEOREMS = [
     "C06_flow_hit_not_blamed",
     "C06_flow_direct_hit_witness",
     "C06_pull_contained",
+    "C06_recovery_failure_keeps_original",
+    "C06_recovery_failure_pinned_witness",
+    "C06_push_propagates",
+    "C06_push_swallow_witness",
 ]
 RULE = (
     "(dag) random DAGs (2..N term nodes) x every kind of fault position (starting node, inner node, two at once) x "
@@ -182,6 +186,9 @@ def gen_cases(rng, tier):
     # hand-wired flows: nodes triggered more than once, `If` branches (oracle only)
     for _ in range(120 if quick else 2500):
         yield gen_flow_case(rng, N.EXCEPTIONS)
+    # parentless nodes wired by hand: pushes from a head, pulls from a tail
+    for _ in range(70 if quick else 1200):
+        yield gen_pchain_case(rng, N.EXCEPTIONS)
     # failures during pulls of a child inside a workflow
     for _ in range(70 if quick else 1200):
         yield gen_pull_case(rng, N.EXCEPTIONS)
@@ -232,6 +239,16 @@ def corpus():
            "fails": [0], "mode": "ctl", "fine": True, "choices": [0, 0, 0, 0], "prerun": False}
     # KeyboardInterrupt raised by a function that runs on an executor (a -> b -> c, b out)
     yield KI_WITNESS
+    # an unstorable value in the graph: the recovery save of the failed root fails
+    yield {"kind": "nest", "lock": "0",
+           "prog": {"n": 2, "order": [0, 1], "slots": {"0": [[], [], []], "1": [[0], [], []]}, "kids": {},
+                    "gid": {"0": 0, "1": 1}, "ret": 1},
+           "fails": {"1": "ValueError"}, "exec": [], "mode": "ctl", "choices": [], "prerun": False}
+    # parentless `load >> scale >> report`, `scale` raises: pushed from the head, pulled from the tail
+    yield {"kind": "pchain", "n": 3, "order": [0, 1, 2], "slots": {"0": [[], [], []], "1": [[0], [], []], "2": [[1], [], []]},
+           "op": "push", "at": 0, "fails": {"1": "ValueError"}, "prerun": True}
+    yield {"kind": "pchain", "n": 3, "order": [0, 1, 2], "slots": {"0": [[], [], []], "1": [[0], [], []], "2": [[1], [], []]},
+           "op": "pull", "at": 2, "fails": {"1": "ValueError"}, "prerun": True}
     # sys.exit() in a node function, locally and on the executor
     yield {"kind": "ktab", "exc": "SystemExit", "depth": 0, "execs": [False]}
     yield {"kind": "ktab", "exc": "SystemExit", "depth": 1, "execs": [True, False]}
@@ -368,7 +385,7 @@ def _chain(exc):
     seen = 0
     while exc is not None and seen < 10:
         out.append(type(exc).__name__)
-        exc = exc.__cause__ or exc.__context__
+        exc = exc.__cause__  # the CAUSE chain: what was raised `from` what (an implicit __context__ is not a cause)
         seen += 1
     return out
 
@@ -410,6 +427,13 @@ def _run_once_with_chain(case):
 
 
 def run_impl(case):
+    if case["kind"] == "pchain":
+        r = _run_pchain(case)
+        hit = [i for i in case["fails"] if int(i) in r["calls"]]
+        return {"obs": _pchain_obs(case, r), "r": r, "runs": [r],
+                "stats": {"pchain": 1, f"pchain_{case['op']}": 1, "fault_hit": int(bool(hit)),
+                          "pchain_raiser_not_invoked": int(bool(hit) and str(case["at"]) not in hit),
+                          f"outcome:{r['outcome'].split(':')[0]}": 1}}
     if case["kind"] == "pull":
         r = _run_pull(case)
         return {"obs": [str(sorted((k, str(v)) for k, v in r.items()))], "r": r, "runs": [r],
@@ -455,7 +479,7 @@ def run_impl(case):
                  "late_completions": len(r["trace"]), "prerun": int(bool(case.get("prerun"))),
                  "several_faults": int(len(hit) > 1), "history_runs": len(r.get("more", ())),
                  "suppressed": int(bool(case.get("suppress"))), "outer_macro": int(case.get("outer") == "macro"),
-                 "nested_fine": int(bool(case.get("nfine"))),
+                 "nested_fine": int(bool(case.get("nfine"))), "unstorable_graph": int(bool(case.get("lock"))),
                  "cache_hits_in_reruns": sum(len(x["hits"]) for x in r.get("more", ())),
                  "nested_fine_halves_below_top": sum(1 for t in r["trace"] if case.get("nfine") and "." in t.split(":")[-1]),
                  **{f"exc:{case['fails'][l]}": 1 for l in hit},
@@ -538,6 +562,8 @@ def nontrivial(case, impl):
 def model_input(case, impl):
     if "r" not in impl or case.get("base") or case["kind"] == "rx":  # harness error / outside the model
         return ["n 0", "run"]
+    if case["kind"] == "pchain":
+        return _pchain_model_input(case, impl["r"])
     if case["kind"] == "pull":
         r = impl["r"]
         return _pull_model_input(case, r) if (r["chain"] is not None and not r["refused"]) else ["n 0", "run"]
@@ -576,6 +602,12 @@ def model_input(case, impl):
 
 
 def diff(case, impl, model):
+    if case["kind"] == "pchain":
+        mine = _pchain_obs(case, impl["r"])
+        if mine == list(model):
+            return None
+        k = next((k for k, (a, b) in enumerate(zip(mine, model)) if a != b), min(len(mine), len(model)))
+        return {"index": k, "impl": mine[k] if k < len(mine) else None, "model": model[k] if k < len(model) else None}
     if case["kind"] == "pull":
         r = impl["r"]
         if r["chain"] is None or r["refused"]:
@@ -624,6 +656,14 @@ def diff(case, impl, model):
             mine = _nest_obs(case, r)
             for k, rk in enumerate(r.get("more", ())):
                 mine = mine + ["rerun"] + _nest_obs(case, rk)[1:]
+            if case.get("lock"):
+                # the tree behaves as the unguarded (`O`) or as the guarded (`Og`) recovery save
+                plain = [l for l in ch if not l.startswith("Og ")]
+                guarded = [l.replace("Og ", "O ", 1) if l.startswith("Og ") else l for l in ch if not l.startswith("O ")]
+                if mine == plain or mine == guarded:
+                    STATS_VARIANT["Og" if mine == guarded else "O"] = STATS_VARIANT.get("Og" if mine == guarded else "O", 0) + 1
+                    continue
+                ch = plain
             if mine == ch:
                 continue
             for k, (a, b) in enumerate(zip(mine, ch)):
@@ -694,6 +734,8 @@ def oracle(case, impl):
         return _rx_oracle(case, r)
     if case["kind"] == "pull":
         return _pull_oracle(case, r)
+    if case["kind"] == "pchain":
+        return _pchain_oracle(case, r)
     if case["kind"] == "single":
         sup = case["suppress"]
         s = lambda c: {"clause": c, "kind": "single", "suppress": sup}  # noqa: E731
@@ -910,10 +952,14 @@ def gen_nest_case(rng, depth, classes, n_max=4, base=False):
             st_["edit"] = sorted(st_["fails"])
     if not base and rng.random() < 0.3:
         hist["suppress"] = True
+    free = [_pstr(p + (i,)) for p, pr in _walk(prog) for i in range(pr["n"]) if str(i) not in pr["kids"]
+            and any(isinstance(sl, list) and not sl for sl in pr["slots"][str(i)])]
+    if not base and not history and free and rng.random() < 0.12:
+        hist["lock"] = rng.choice(free)  # an unstorable value in a free input somewhere in the graph
     if not base and rng.random() < 0.3:
         hist["outer"] = "macro"
     return {"kind": "nest", **hist, "prog": prog, "fails": fails, "exec": sorted(ex),
-            "mode": rng.choice(["ctl", "ctl", "ctl-cloudpickle"]),
+            "mode": "ctl" if hist.get("lock") else rng.choice(["ctl", "ctl", "ctl-cloudpickle"]),
             "choices": [] if lazy else [rng.choice([0, 0, 0, 1, 2, 3]) for _ in range(60)],
             # (with caching on, the history itself is the re-run: no separate pre-run)
             "prerun": rng.random() < 0.3 and not hist.get("cache"), **({"base": True} if base else {})}
@@ -1089,7 +1135,7 @@ def _chain_tokens(exc, N, gid_path):
             toks.append("fc")
         else:
             toks.append("other:" + type(exc).__name__)
-        exc = exc.__cause__ if exc.__cause__ is not None else (None if exc.__suppress_context__ else exc.__context__)
+        exc = exc.__cause__
     toks.append("none")
     return " ".join(toks)
 
@@ -1115,6 +1161,15 @@ def _run_nest(case):
         before = {p: term_str(nodes[p].outputs.o.value) for p in leaf_gid}
         N.CALL_LOG.clear()
         N.EPOCH[0] = 1
+    if case.get("lock"):
+        # the graph holds a value that cannot be stored (here: pickled): the root's recovery save will fail
+        import threading
+
+        pl = _ppath(case["lock"])
+        for name, sl in zip("abc", progs[pl[:-1]]["slots"][str(pl[-1])]):
+            if isinstance(sl, list) and not sl:
+                nodes[pl].inputs[name].value = _Unstorable()
+                break
     first = _nest_one_run(case, case, wf, nodes, progs, composites, gid_path, leaf_gid, before)
     more, last = [], first
     for step in case.get("history", ()):
@@ -1141,6 +1196,24 @@ def _run_nest(case):
         more.append(last)
     first["more"] = more
     return first
+
+
+class _Unstorable:
+    """an input value that cannot be pickled (it holds a lock); renders like the default in terms"""
+
+    def __init__(self):
+        import threading
+
+        self.lock = threading.Lock()
+
+    def __repr__(self):
+        return "'u'"
+
+    def __eq__(self, other):
+        return isinstance(other, _Unstorable)
+
+    def __hash__(self):
+        return 7
 
 
 def _nest_one_run(case, step, wf, nodes, progs, composites, gid_path, leaf_gid, before):
@@ -1211,7 +1284,9 @@ def _nest_one_run(case, step, wf, nodes, progs, composites, gid_path, leaf_gid, 
         # the state at the moment the run has returned to its caller
         r = {
             "outcome": outcome,
-            "chain": _chain_tokens(exc if exc is not None else body.get("exc"), N, gid_path),
+            # what the outermost composite's own loop raised (also when the caller asked for suppression, and when
+            # something else came out of the epilogue instead)
+            "chain": _chain_tokens(body.get("exc", exc), N, gid_path),
             "chain_types": c06_chain(exc),
             "raised_is_orig": {_pstr(gid_path[g]): any(e is x for x in _chain_objs(exc)) for g, e in N.RAISED.items()},
             "raised_types": {_pstr(gid_path[g]): type(e).__name__ for g, e in N.RAISED.items()},
@@ -1236,7 +1311,11 @@ def _nest_one_run(case, step, wf, nodes, progs, composites, gid_path, leaf_gid, 
                            and case.get("cache")),
             "options_seen": list(sched.options_seen),
             "recovery_file": any(f.startswith("recovery") for _d, _s, fs in __import__("os").walk(".") for f in fs),
-            "ret": "raised" if exc is not None else "none" if ret is None else "value",
+            # raised-save: what came out is not what the loop raised, but something raised while handling it (the loop's
+            # exception is its __context__): the epilogue — the recovery save — failed
+            "ret": ("raised-save" if exc is not None and "exc" in body and exc is not body["exc"]
+                    and exc.__context__ is body["exc"] else "raised" if exc is not None
+                    else "none" if ret is None else "value"),
             "lis_calls": calls.count(N.N_TERM - 1), "aft_calls": calls.count(N.N_TERM - 2),
         }
         # what the outstanding jobs do when they complete after the run has returned (still under the scheduler:
@@ -1264,7 +1343,7 @@ def _chain_objs(exc):
     out, seen = [], 0
     while exc is not None and seen < 12:
         out.append(exc)
-        exc = exc.__cause__ or exc.__context__
+        exc = exc.__cause__  # the CAUSE chain: what was raised `from` what (an implicit __context__ is not a cause)
         seen += 1
     return out
 
@@ -1381,7 +1460,8 @@ def _nest_model_input(case, r):
 
 def _ncycle(case):
     # suppress, outermost on an executor (never), fires its own signals (a macro does, a Workflow does not), recovery on
-    return f"ncycle {int(bool(case.get('suppress')))} 0 {int(case.get('outer') == 'macro')} 1"
+    return (f"ncycle {int(bool(case.get('suppress')))} 0 {int(case.get('outer') == 'macro')} 1"
+            + (" 1" if case.get("lock") else ""))
 
 
 def _nest_downstream(pr, roots):
@@ -1428,6 +1508,11 @@ def _nest_oracle(case, r):
             fails.append({"clause": "failed-signal-not-exactly-once",
                           "detail": f"`failed` listener ran {r['lis_calls']} times, `ran` listener {r['aft_calls']} times",
                           "signature": sig("failed-once")})
+    elif r["ret"] == "raised-save":
+        fails.append({"clause": "original-exception-lost",
+                      "detail": f"the caller got {r['outcome']} raised by the epilogue (recovery save) instead of the run's "
+                                f"own error; cause chain {r['chain_types']}",
+                      "signature": sig("cause", unstorable=bool(case.get("lock")))})
     elif not r["outcome"].startswith("raised:"):
         fails.append({"clause": "error-does-not-reach-caller",
                       "detail": f"run returned normally; failing nodes {hit}", "signature": sig("reaches-caller")})
@@ -2424,4 +2509,175 @@ def _pull_oracle(case, r):
     if ran:
         fails.append({"clause": "downstream-of-failure-executed",
                       "detail": f"{ran} ran although {hit} failed (pulled node {t})", "signature": sig("no-downstream")})
+    return fails
+
+
+# =====================================================================================================
+# parentless nodes wired by hand (kind "pchain"): pushes from a head, pulls from a tail
+# =====================================================================================================
+#
+# case = {"kind": "pchain", "n", "order", "slots", "op": "push"|"pull", "at": node, "fails": {"i": key}, "prerun": bool}
+# Parentless term nodes with data connections; for a push every data edge also carries a run signal (`up >> down`), and
+# the caller runs a node without upstream; for a pull there are no signals and the caller pulls a node with upstream.
+# The raising node is (mostly) NOT the one the caller invoked: the error comes up through nested `emit()`s.
+
+
+def gen_pchain_case(rng, classes):
+    n = rng.randint(2, 6)
+    order, slots = c01.gen_dag(rng, n, 0.6)
+    case = {"kind": "pchain", "n": n, "order": order, "slots": slots}
+    heads = [i for i in range(n) if not any(slots[str(i)])]
+    tails = [i for i in range(n) if any(slots[str(i)])]
+    if tails and rng.random() < 0.5:
+        op, at = "pull", rng.choice(tails)
+        pool = sorted(_pull_closure({**case, "target": at}))
+    else:
+        op, at = "push", rng.choice(heads)
+        pool = sorted(_downstream({"n": n, "slots": slots}, [at])) or [at]
+    fl = rng.sample(pool, min(len(pool), rng.choice([1, 1, 1, 2])))
+    return {**case, "op": op, "at": at, "fails": {str(i): rng.choice(classes) for i in fl}, "prerun": rng.random() < 0.6}
+
+
+def _run_pchain(case):
+    import pyiron_workflow.node as nodemod
+
+    from . import nodes_c06 as N
+    from .execsim import term_str
+
+    N.reset()
+    ns = {i: N.term_node(i, label=f"n{i}") for i in case["order"]}
+    for i in case["order"]:
+        ns[i].use_cache = False
+        for slot, ups in zip("abc", case["slots"][str(i)]):
+            for j in ups:
+                ns[i].inputs[slot].connect(ns[j].outputs.o)
+    if case["op"] == "push":
+        for i in case["order"]:
+            for j in sorted({j for sl in case["slots"][str(i)] for j in sl}):
+                ns[j] >> ns[i]
+    index = {id(n): i for i, n in ns.items()}
+    seen = {}
+    orig_lin = nodemod.set_run_connections_according_to_linear_dag
+
+    def lin(nodes_):
+        res = orig_lin(nodes_)
+        if "chain" not in seen:
+            chain, cur = [], (res[1][0] if res[1] else None)
+            while cur is not None and len(chain) <= case["n"]:
+                chain.append(index[id(cur)])
+                c = cur.signals.output.ran.connections
+                cur = c[0].owner if c else None
+            seen["chain"] = chain
+        return res
+
+    def go():
+        return ns[case["at"]].run() if case["op"] == "push" else ns[case["at"]].pull()
+
+    before = None
+    if case.get("prerun"):
+        go()
+        before = {i: term_str(ns[i].outputs.o.value) for i in ns}
+        N.CALL_LOG.clear()
+        N.EPOCH[0] = 1
+    for i, key in case["fails"].items():
+        N.EXC[int(i)] = key
+    conns = {4 * j: [index[id(c.owner)] for c in ns[j].signals.output.ran.connections]
+             for j in ns if ns[j].signals.output.ran.connections}
+    outcome, exc = "ok", None
+    nodemod.set_run_connections_according_to_linear_dag = lin
+    try:
+        go()
+    except BaseException as e:  # noqa: BLE001
+        outcome, exc = f"raised:{type(e).__name__}", e
+    finally:
+        nodemod.set_run_connections_according_to_linear_dag = orig_lin
+    by_obj = {id(e): i for i, e in N.RAISED.items()}
+    objs = _chain_objs(exc)
+    return {
+        "outcome": outcome, "chain_types": [type(e).__name__ for e in objs],
+        "seen": "-" if exc is None else f"raw orig:{by_obj[id(exc)]}" if id(exc) in by_obj else "raw other:" + type(exc).__name__,
+        "raised_is_orig": {str(i): any(e is x for x in objs) for i, e in N.RAISED.items()},
+        "calls": list(N.CALL_LOG), "conns": conns, "chain": seen.get("chain"),
+        "flags": {str(i): (bool(ns[i].running), bool(ns[i].failed)) for i in ns},
+        "outs": {str(i): term_str(ns[i].outputs.o.value) for i in ns},
+        "before": None if before is None else {str(i): v for i, v in before.items()},
+    }
+
+
+def _pchain_obs(case, r):
+    return [f"P exec [{','.join(map(str, r['calls']))}]",
+            f"P failed [{','.join(str(i) for i in range(case['n']) if r['flags'][str(i)][1])}]",
+            f"P seen {r['seen']}"]
+
+
+def _pchain_model_input(case, r):
+    lines = [f"wn {case['n']}"]
+    if case["op"] == "push":
+        for e in sorted(r["conns"]):
+            lines.append(f"wconn {e} " + " ".join(map(str, r["conns"][e])))
+        head = case["at"]
+    else:
+        chain = list(r["chain"] or []) + [case["at"]]
+        for a, b in zip(chain, chain[1:]):
+            lines.append(f"wconn {4 * a} {b}")
+        head = chain[0]
+    lines.append("wfails " + " ".join(sorted(case["fails"], key=int)))
+    if case.get("prerun"):
+        lines.append("wpre")
+    lines.append(f"wpush {head}")
+    return lines
+
+
+def _pchain_oracle(case, r):
+    fails = []
+    hit = [i for i in case["fails"] if int(i) in r["calls"]]
+    invoked = str(case["at"])
+
+    def sig(c):
+        return {"clause": c, "kind": "pchain", "op": case["op"], "raiser_is_invoked": invoked in hit}
+
+    if not hit:
+        return fails
+    if not r["outcome"].startswith("raised:"):
+        fails.append({"clause": "error-does-not-reach-caller",
+                      "detail": f"{case['op']} of {invoked} returned normally although {hit} raised", "signature": sig("reaches-caller")})
+    elif len(hit) == 1 and not r["raised_is_orig"].get(hit[0]):
+        fails.append({"clause": "original-exception-lost",
+                      "detail": f"{case['fails'][hit[0]]} raised by {hit[0]} is not in the cause chain {r['chain_types']}",
+                      "signature": sig("cause")})
+    for h in hit:
+        run, failed = r["flags"][h]
+        if run or not failed:
+            fails.append({"clause": "failing-node-flags", "detail": f"{h}: running={run} failed={failed}",
+                          "signature": sig("node-flags")})
+    for x, (run, failed) in r["flags"].items():
+        if run:
+            fails.append({"clause": "node-left-running", "detail": x, "signature": sig("left-running")})
+        if failed and x not in hit:
+            fails.append({"clause": "unrelated-node-marked-failed", "detail": x, "signature": sig("nobody-else")})
+    for h in hit:
+        expect = r["before"][h] if r["before"] is not None else "ND"
+        if r["outs"][h] != expect:
+            fails.append({"clause": "outputs-not-kept", "detail": f"{h}: {r['outs'][h]} vs {expect}",
+                          "signature": sig("outputs-kept")})
+    # contained: in a push a node runs only if some completed node's `ran` leads to it; in a pull nothing that takes data
+    # from a failed node runs (in particular not the pulled node)
+    if case["op"] == "push":
+        may, changed = {case["at"]}, True
+        while changed:
+            changed = False
+            for e, recvs in r["conns"].items():
+                j = e // 4
+                if j in may and str(j) not in hit:
+                    for i in recvs:
+                        if i not in may:
+                            may.add(i)
+                            changed = True
+        bad = sorted(set(r["calls"]) - may)
+    else:
+        bad = [i for i in sorted(_downstream({"n": case["n"], "slots": case["slots"]}, [int(h) for h in hit]))
+               if i in r["calls"]]
+    if bad:
+        fails.append({"clause": "downstream-of-failure-executed", "detail": f"{bad} ran although {hit} failed",
+                      "signature": sig("no-downstream")})
     return fails
